@@ -70,6 +70,46 @@ def rule_a(ctx):
          'wrong, e.g. pg.List([1,2,3,4])[::-1] == []')
 
 
+def rule_a2(ctx):
+  """Slice assignment with a negative step is rewritten to ascending form.  The
+  lowest position visited by `range(start, stop, step)` depends on the step
+  (for |step| > 1 it is not `stop + 1`), so the new `start` must be computed
+  from the step or from the materialised positions."""
+  idx = ctx.index
+  f = idx.lookup_method(S.LIST, '__setitem__')
+  g = C.cfg_of(f.node)
+  negs = [t for t in g.nodes if t.kind == 'test' and A.unparse(t.ast) in ('step < 0', '0 > step')]
+  if not negs:
+    ctx.info('C02.a', f.fq + '#negative-step', 'no separate treatment of negative steps in slice assignment', f.loc)
+    return
+  problems = []
+  for t in negs:
+    for m, lab in t.succ:
+      if lab != 'true':
+        continue
+      seen, _ = g.reach(m, follow_exc=False)
+      seen.add(m.id)
+      # re-definitions of `start` inside the negative-step region (before the step is flipped)
+      flips = [k for k in g.nodes if k.id in seen and 'step' in D.node_defs(k)]
+      region = seen
+      if flips:
+        after, _ = g.reach(flips[0], follow_exc=False)
+        region = {i for i in seen if i not in after} | {flips[0].id}
+      for i in region:
+        k = g.nodes[i]
+        d = D.node_defs(k)
+        if 'start' in d and d['start'] is not None:
+          names, exprs = D.backward_slice_names(f.node, A.names_read(d['start']))
+          txt = A.unparse(d['start'], 200)
+          dep = 'step' in names or 'step' in A.names_read(d['start']) or any('range(' in A.unparse(e, 200) and 'step' in A.unparse(e, 200) for e in exprs)
+          if not dep:
+            problems.append(f'line {k.lineno}: the ascending start is `{txt}`, which does not depend on the step: for '
+                            f'|step| > 1 the lowest visited position is not stop + 1 and the values land on the wrong indices')
+  ctx.ob('C02.a', f.fq + '#negative-step', not problems,
+         'the ascending form of a negative-step slice assignment is computed from the step / the actual positions',
+         f.loc, '; '.join(problems))
+
+
 PATH_PARSERS = ('rebind', 'sym_rebind', 'from_value', 'parse')
 
 
@@ -432,6 +472,7 @@ def rule_g(ctx):
 def run(ctx):
   ctx.consult(*FILES)
   rule_a(ctx)
+  rule_a2(ctx)
   rule_b(ctx)
   rule_c(ctx)
   rule_d(ctx)
